@@ -3,6 +3,7 @@
 use crate::core::{Case, Ctx, Stats, Tier};
 use crate::runner::RunOpts;
 
+pub mod histories;
 pub mod parsing;
 pub mod steps;
 
@@ -32,11 +33,13 @@ pub fn all() -> Vec<&'static dyn Check> {
         &steps::C06,
         &steps::C07,
         &steps::C08,
+        &histories::C09,
         &parsing::C11,
         &steps::C12,
         &steps::C13,
         &steps::C14,
         &steps::C16,
+        &histories::C17,
         &steps::C18,
         &parsing::C19,
     ]
